@@ -303,6 +303,14 @@ impl Tag {
         }
     }
 
+    pub fn get_element_mut(&mut self) -> Option<&mut SvgElement> {
+        match self {
+            Tag::Compound(el, _) => Some(el),
+            Tag::Leaf(el, _) => Some(el),
+            _ => None,
+        }
+    }
+
     pub fn get_element(&self) -> Option<SvgElement> {
         match self {
             Tag::Compound(el, _) => Some(el.clone()),
